@@ -1,5 +1,5 @@
 SPECIFICATION Spec
-CONSTANT Family = "C12"
+CONSTANT Family = "C12Report"
 INVARIANT InvShape
 INVARIANT InvAcc
 CHECK_DEADLOCK FALSE
